@@ -514,6 +514,8 @@ def consts(fn):
 
 
 def rule_acc(rep, d, dec, enc):
+    rep.rule("C13.group", "an encoder that builds each character directly from input bytes: per block of emissions, every bit of every alphabet index has the "
+                          "provenance RFC 4648 prescribes (b0[7:2] | b0[1:0] b1[7:4] | b1[3:0] b2[7:6] | b2[5:0], zeros where the tail has no byte); no sign copies, no overlap")
     rep.rule("C13.acc", "bit-accumulator constants are mutually consistent: bits shifted in per input unit = bits added to the "
                         "counter (6 for decode, 8 for encode), bits removed per output unit (8 / 6) = width of the output mask = "
                         "-(initial counter), emission happens while the counter is >= 0, and the encoder's tail test is `> -6`")
@@ -522,6 +524,9 @@ def rule_acc(rep, d, dec, enc):
         name = fn["name"]
         if not c["init"]:
             # no counter that starts negative: a different (equally valid) bookkeeping of the pending bits - the constants below do not apply
+            if fn is enc and rule_group(rep, d, enc) > 0:
+                rep.note("%s: no bit accumulator; the groups of characters are decided by bit provenance (C13.group)" % name)
+                continue
             rep.inconclusive("C13.acc", name, "accumulator scheme", where=d.where(fn), detail="the `valb` scheme (counter starting at -%d) is not used here" % nout)
             continue
         # the tail group must not depend on the accumulated VALUE (zero bits are data too)
@@ -602,6 +607,163 @@ def rule_acc(rep, d, dec, enc):
             else:
                 rep.violates("C13.acc", name, "emission conditions", where=d.where(fn),
                              detail="counter is tested with %s, the scheme needs %s" % (sorted(c["emit_cmp"]), sorted(want_cmp)))
+
+
+def rule_group(rep, d, enc):
+    """encoders that assemble each output character directly from input bytes (three bytes -> four characters, explicit tails): the provenance of
+    every bit of every alphabet index is computed (sa/bitprov.py) and each block of emissions must be the RFC 4648 split of consecutive bytes
+    b0 b1 b2 into b0[7:2] | b0[1:0] b1[7:4] | b1[3:0] b2[7:6] | b2[5:0] (zero bits where the tail has no byte).  -> number of blocks judged"""
+    from .. import bitprov, linear
+    R = "C13.group"
+    pnames = {p.get("name") for p in ir.params(enc) if "string" in ir.qtype(p) or "string" in ir.wtype(p)}
+    assigned = {}
+    for x in ir.walk_expr(enc):
+        if x.get("kind") in ("BinaryOperator", "CompoundAssignOperator", "UnaryOperator") and (
+                (x.get("opcode") or "").endswith("=") and x.get("opcode") not in ("==", "!=", "<=", ">=") or x.get("opcode") in ("++", "--")):
+            t_ = ir.strip(ir.ekids(x)[0])
+            if t_.get("kind") == "DeclRefExpr":
+                rid_ = (t_.get("referencedDecl") or {}).get("id")
+                assigned[rid_] = assigned.get(rid_, 0) + 1
+    linit = {v.get("id"): ir.ekids(v)[-1] for v in ir.walk_expr(enc) if v.get("kind") == "VarDecl" and ir.ekids(v) and v.get("id") not in assigned
+             and trange.type_range(ir.qtype(v)) is not None}
+    lits = literal_locals(d, enc)
+
+    def offset(e):
+        l_ = linear.lin(ir.sx(e), lambda t: t[1] if t[0] == "ref" else None)
+        if l_ is None:
+            return None
+        base = tuple(sorted((k_, v_) for k_, v_ in l_.items() if k_ != ""))
+        return (base, l_.const())
+
+    def byte_of(n):
+        if n.get("kind") == "CXXOperatorCallExpr":
+            t = ir.sx(n)
+            if t[0] == "index" and t[1][0] == "ref" and t[1][1] in pnames:
+                return offset(ir.ekids(n)[2])
+        if n.get("kind") == "CXXMemberCallExpr":
+            t = ir.sx(n)
+            if t[0] == "call" and t[1][0] == "mem" and t[1][2] == "at" and t[1][1][0] == "ref" and t[1][1][1] in pnames and len(t) == 3:
+                return offset(ir.ekids(n)[1])
+        return None
+
+    def alphabet_index(x):
+        """x is the character handed to the output: alphabet[IDX] or f(IDX) -> IDX node"""
+        x = ir.strip(x)
+        while x.get("kind") in ("CXXStaticCastExpr", "CStyleCastExpr", "CXXFunctionalCastExpr") and ir.ekids(x):
+            x = ir.strip(ir.ekids(x)[-1])
+        if x.get("kind") == "ArraySubscriptExpr":
+            base, idx = ir.ekids(x)
+            b = ir.strip(base)
+            if b.get("kind") == "StringLiteral" and unq(b.get("value", "")) == RFC:
+                return idx
+            if b.get("kind") == "DeclRefExpr" and lits.get((b.get("referencedDecl") or {}).get("id")) == RFC:
+                return idx
+        return None
+
+    blocks = {}
+    order = []
+    for n in ir.walk_expr(enc):
+        if n.get("kind") != "CXXMemberCallExpr":
+            continue
+        t = ir.sx(n)
+        if not (t[0] == "call" and t[1][0] == "mem" and t[1][2] == "push_back" and t[1][1][0] == "ref" and t[1][1][1] not in pnames and len(t) == 3):
+            continue
+        idx = alphabet_index(ir.ekids(n)[1])
+        if idx is None:
+            continue
+        par = d.parent_of(n)
+        while par is not None and par.get("kind") != "CompoundStmt":
+            par = d.parent_of(par)
+        key = par.get("id") if par is not None else None
+        if key not in blocks:
+            blocks[key] = []
+            order.append(key)
+        blocks[key].append((n, idx))
+    # only encoders whose indices are built from input bytes directly
+    if not any(any(byte_of(x) is not None for x in ir.walk_expr(enc)) for _ in (0,)):
+        return 0
+    judged = 0
+    for key in order:
+        ems = blocks[key]
+        sext = []
+        unk = None
+        for n, idx in ems:
+            try:
+                bits, sg = bitprov.Prov(d, byte_of, linit).ev(idx)
+            except bitprov.Unknown as e:
+                unk = (n, str(e))
+                break
+            sext.append((n, bits))
+        lab = enc["name"]
+        cons = "group of %d characters at line %s" % (len(ems), (d.where(ems[0][0]) or "").split(":")[-1])
+        if unk:
+            rep.inconclusive(R, lab, cons, where=d.where(unk[0]), detail="index of `%s` not tracked: %s" % (d.text(unk[0])[:50], unk[1]))
+            continue
+        if any(any(b_ is None for b_ in bits[:6]) for _, bits in sext):
+            rep.inconclusive(R, lab, cons, where=d.where(ems[0][0]), detail="some bit of an index is not tracked")
+            continue
+        judged += 1
+        bad = None
+        bytes_seen = sorted({b_[0] for _, bits in sext for b_ in bits[:6] if isinstance(b_, tuple) and b_[0] != "or"}, key=lambda kk: kk[1])
+        if not bytes_seen or len({kk[0] for kk in bytes_seen}) != 1:
+            rep.inconclusive(R, lab, cons, where=d.where(ems[0][0]), detail="the characters of the group do not come from consecutive elements of one base index")
+            continue
+        base, k0 = bytes_seen[0]
+
+        def B(i, j):
+            return ((base, k0 + i), j)
+        want_full = [[B(0, 2), B(0, 3), B(0, 4), B(0, 5), B(0, 6), B(0, 7)],
+                     [B(1, 4), B(1, 5), B(1, 6), B(1, 7), B(0, 0), B(0, 1)],
+                     [B(2, 6), B(2, 7), B(1, 0), B(1, 1), B(1, 2), B(1, 3)],
+                     [B(2, 0), B(2, 1), B(2, 2), B(2, 3), B(2, 4), B(2, 5)]]
+        nbytes = {2: 1, 3: 2, 4: 3}.get(len(sext))
+        if nbytes is None:
+            rep.inconclusive(R, lab, cons, where=d.where(ems[0][0]), detail="%d characters in one block: not a base64 group" % len(sext))
+            continue
+        for ci, (n, bits) in enumerate(sext):
+            want = [b_ if b_[0][1] - k0 < nbytes else 0 for b_ in want_full[ci]]
+            for j in range(6):
+                if bits[j] != want[j]:
+                    bad = bad or (n, "bit %d of character %d of the group is %s, RFC 4648 puts %s there" % (
+                        j, ci + 1, _bit_name(bits[j], base, k0), _bit_name(want[j], base, k0)))
+            if any(b_ != 0 for b_ in bits[6:]):
+                hi = [j for j in range(6, len(bits)) if bits[j] != 0][0]
+                bad = bad or (n, "bit %d of the alphabet index of character %d can be set (%s): the index leaves 0..63" % (hi, ci + 1, _bit_name(bits[hi], base, k0)))
+        # the group is completed to four characters with '='
+        blk = d.by_id.get(key) if key else None
+        pads = 0
+        pads_known = blk is not None
+        if blk is not None:
+            for x in ir.kids(blk):
+                x0 = ir.strip(x)
+                if x0.get("kind") != "CXXMemberCallExpr":
+                    continue
+                tx = ir.sx(x0)
+                if tx[0] == "call" and tx[1][0] == "mem" and tx[1][1][0] == "ref" and tx[1][1][1] not in pnames:
+                    if tx[1][2] == "push_back" and len(tx) == 3 and uncast(tx[2]) == ("lit", ord("=")):
+                        pads += 1
+                    elif tx[1][2] == "append" and len(tx) == 4 and uncast(tx[3]) == ("lit", ord("=")) and uncast(tx[2])[0] == "lit":
+                        try:
+                            pads += int(str(uncast(tx[2])[1]))
+                        except ValueError:
+                            pads_known = False
+        if not bad and pads_known and pads + len(sext) != 4 and (pads or len(sext) < 4):
+            bad = (ems[-1][0], "the %d characters of this group are completed with %d pad character(s): a base64 group has four" % (len(sext), pads))
+        if bad:
+            rep.violates(R, lab, cons, where=d.where(bad[0]), detail=bad[1] + ("" if "pad" in bad[1] else " (a plain `char` widened to int carries copies of its sign bit)"))
+        else:
+            rep.holds(R, lab, cons, where=d.where(ems[0][0]), detail="%d byte(s) -> %d characters: every index bit comes from the RFC 4648 position" % (nbytes, len(sext)))
+    return judged
+
+
+def _bit_name(b, base, k0):
+    if b in (0, 1):
+        return "the constant %d" % b
+    if b is None:
+        return "untracked"
+    if b[0] == "or":
+        return "%s OR %s" % (_bit_name(b[1], base, k0), _bit_name(b[2], base, k0))
+    return "bit %d of byte %d" % (b[1], b[0][1] - k0)
 
 
 def rule_input(rep, d, fns):
